@@ -38,14 +38,22 @@ def gen_repl_shape():
     cached_gmap = len(re.findall(r"frame\s*\.\s*global_mapping_id\s*=\s*gmap_id\s*;", cached)) >= 2
     calls = strip_comments(rd("runtime/src/vm/dispatch/ops/calls.inc"))
     n_old = len(re.findall(r"if\s+needs_switch\s*&&\s*caller_gmap\s*!=\s*0\s*\{\s*self\.sync_current_function_globals\(\);", calls))
-    n_new = len(re.findall(r"if\s+needs_switch\s*&&\s*\(\s*caller_gmap\s*!=\s*0\s*\|\|\s*leaving_run_loop\s*\)\s*\{\s*self\.sync_current_function_globals\(\);", calls))
+    n_new = len(re.findall(r"if\s+needs_switch\s*\|\|\s*leaving_run_loop\s*\{\s*self\.sync_loaded_globals\(\);", calls))
     n_leave = len(re.findall(r"let\s+leaving_run_loop\s*=\s*self\.frames\.len\(\)\s*==\s*1\s*;", calls))
-    if n_new == 2 and n_leave == 2 and n_old == 0:
+    n_need = len(re.findall(r"let\s+needs_switch\s*=\s*caller_gmap\s*!=\s*0\s*&&\s*caller_gmap\s*!=\s*self\.current_global_mapping_id\s*;", calls))
+    if n_new == 2 and n_leave == 2 and n_need == 2 and n_old == 0:
         return_syncs_leaving = True
-    elif n_old == 2 and n_new == 0:
-        return_syncs_leaving = False
     else:
-        raise ExtractError("calls.inc: the sync condition of Return/Return0 is not one of the two known shapes; Model/GlobalsSync.v:do_return is out of date")
+        raise ExtractError("calls.inc: Return/Return0 no longer decide the layout switch by comparing the caller's id with the loaded id "
+                           "and syncing the loaded layout (also when leaving the run loop); Model/GlobalsSync.v:do_return is out of date")
+    # every call path compares the callee's id with the id of the layout that is loaded (c90f0cb)
+    paths = "".join(strip_comments(rd("runtime/src/vm/dispatch/ops/" + f)) for f in
+                    ("calls.inc", "call_global.inc", "call_global_mono.inc", "call_cached.inc", "call_upval.inc", "tail_call_upval.inc"))
+    n_loaded = len(re.findall(r"callee_gmap\s*!=\s*0\s*&&\s*(?:cached\.)?callee_gmap\s*!=\s*self\.current_global_mapping_id\s*\{\s*self\.sync_loaded_globals\(\);", paths))
+    n_frameid = len(re.findall(r"callee_gmap\s*!=\s*global_mapping_id\b", paths))
+    if n_loaded != 13 or n_frameid != 0:
+        raise ExtractError(f"call paths: expected 13 layout switches that compare with the loaded id, found {n_loaded} (and {n_frameid} that compare "
+                           "with the frame's id); Model/GlobalsSync.v:call_enter is out of date")
     run_rs = strip_comments(rd("runtime/src/vm/dispatch/run.rs"))
     m = re.search(r"pub\s+fn\s+run_fast\s*\(\s*&mut\s+self\s*\)[^{]*\{", run_rs)
     if not m:
